@@ -14,6 +14,7 @@ import (
 
 	"verif/harness/refspec"
 	"verif/harness/simapi"
+	"verif/harness/world"
 )
 
 // ---------------------------------------------------------------------------
@@ -251,6 +252,8 @@ func CheckC06(v *View, st Stats) []Violation {
 		}
 		if rl := podRev(pod); rl == "" || revByName(v.RevsAfter, rl) == nil {
 			out = append(out, viol("C06", "revision-label", "pod %s created with revision label %q which names no revision of the set", pod.Name, rl))
+		} else if t := world.DecodeRevisionTemplate(revByName(v.RevsAfter, rl)); t != nil && !podBuiltFrom(pod, t) {
+			out = append(out, viol("C06", "revision-label-not-the-one-built-from", "pod %s carries revision label %s but was built from a different template", pod.Name, rl))
 		}
 		nCtrl := 0
 		for _, o := range pod.OwnerReferences {
